@@ -330,7 +330,16 @@ fn gen_i32(src: &mut Src) -> i32 {
 /// In-range real (or zero) as bits
 pub fn gen_real(src: &mut Src) -> u64 {
     const FAV: &[f64] = &[0.0, 1.0, 90.0, 180.0, 270.0, 1e-3, 1e-9, 1e-6, 0.1, 2.5, -90.0, 0.5, 45.0, 1.0 / 3.0];
-    match src.weighted(&[5, 3, 2]) {
+    match src.weighted(&[10, 6, 4, 1]) {
+        3 => {
+            // below the normalised range but still representable exactly: M * 2^-312 with M < 2^52
+            // (exponent byte 0, mantissa with leading zero digits)
+            let bits = src.below(52) as u32;
+            let m = (src.u64() & ((1u64 << bits) - 1)) | (1u64 << bits);
+            let x = (m as f64) * 2f64.powi(-312);
+            let sign = src.below(2);
+            x.to_bits() | (sign << 63)
+        }
         0 => src.pick(FAV).to_bits(),
         1 => {
             let sign = src.below(2);
